@@ -2,97 +2,120 @@ package sim
 
 import (
 	"sort"
-	"sync"
+	"sync/atomic"
 )
 
 // Ctl is the simulator's controller: goroutines of the system under test park
 // on named gates; after quiescence (synctest.Wait) the controller releases
 // exactly one of them, chosen from the tape. Gate names are content-derived
-// ("L:3", "json.worker.send:128"), and the option list is sorted, so it does
-// not depend on which OS thread parked first.
+// ("L:003", "json.worker.send:f.json:00128"), and the option list is sorted, so
+// it does not depend on which OS thread parked first.
+//
+// Race-detector hygiene (C29): the controller must not order goroutines of the
+// system under test with respect to each other, or it would hide the races it
+// is looking for. A parking goroutine hands its gate to the controller over a
+// large buffered channel (one slot per park: an edge parker -> controller only)
+// and then waits for the release inside runtime.RaceDisable/RaceEnable, so the
+// release creates no controller -> parker edge. All bookkeeping is private to
+// the controller's goroutine.
 type Ctl struct {
-	mu      sync.Mutex
-	parked  map[string]chan struct{}
-	aborted bool
+	reg     chan *gate
+	parked  map[string]*gate // controller goroutine only
+	aborted atomic.Bool
 	Steps   int
 	// OnRelease, if set, is called (on the controller's goroutine) for every released gate.
 	OnRelease func(key string)
 }
 
+type gate struct {
+	key string
+	ch  chan struct{}
+}
+
 func NewCtl() *Ctl {
-	return &Ctl{parked: map[string]chan struct{}{}}
+	return &Ctl{reg: make(chan *gate, 1<<16), parked: map[string]*gate{}}
 }
 
 // Park blocks the caller until the controller releases key. It returns false
 // if the run has been aborted (the caller should unwind quickly).
 func (c *Ctl) Park(key string) bool {
 	raceOff()
-	c.mu.Lock()
-	if c.aborted {
-		c.mu.Unlock()
-		raceOn()
+	ab := c.aborted.Load()
+	raceOn()
+	if ab {
 		return false
 	}
-	if _, dup := c.parked[key]; dup {
-		c.mu.Unlock()
-		raceOn()
-		panic("sim: duplicate gate key " + key)
-	}
-	ch := make(chan struct{})
-	c.parked[key] = ch
-	c.mu.Unlock()
-	<-ch
-	c.mu.Lock()
-	ab := c.aborted
-	c.mu.Unlock()
+	g := &gate{key: key, ch: make(chan struct{})}
+	c.reg <- g
+	raceOff()
+	<-g.ch
+	ab = c.aborted.Load()
 	raceOn()
 	return !ab
 }
 
-// Enabled lists the parked gates, sorted.
+func (c *Ctl) drain() {
+	for {
+		select {
+		case g := <-c.reg:
+			if _, dup := c.parked[g.key]; dup {
+				panic("sim: duplicate gate key " + g.key)
+			}
+			c.parked[g.key] = g
+		default:
+			return
+		}
+	}
+}
+
+// Enabled lists the parked gates, sorted. Controller goroutine only, after quiescence.
 func (c *Ctl) Enabled() []string {
-	raceOff()
-	c.mu.Lock()
+	c.drain()
 	out := make([]string, 0, len(c.parked))
 	for k := range c.parked {
 		out = append(out, k)
 	}
-	c.mu.Unlock()
-	raceOn()
 	sort.Strings(out)
 	return out
 }
 
 func (c *Ctl) Release(key string) {
-	raceOff()
-	c.mu.Lock()
-	ch, ok := c.parked[key]
+	g, ok := c.parked[key]
 	if !ok {
-		c.mu.Unlock()
-		raceOn()
 		panic("sim: release of unparked gate " + key)
 	}
 	delete(c.parked, key)
 	c.Steps++
-	c.mu.Unlock()
-	raceOn()
 	if c.OnRelease != nil {
 		c.OnRelease(key)
 	}
 	raceOff()
-	close(ch)
+	close(g.ch)
 	raceOn()
 }
 
 // Abort releases everything that is parked or will park from now on.
 func (c *Ctl) Abort() {
 	raceOff()
-	c.mu.Lock()
-	c.aborted = true
-	for k, ch := range c.parked {
-		close(ch)
+	c.aborted.Store(true)
+	raceOn()
+	c.drain()
+	for k, g := range c.parked {
+		raceOff()
+		close(g.ch)
+		raceOn()
 		delete(c.parked, k)
 	}
-	c.mu.Unlock()
-	raceOn()
+}
+
+// AbortLate releases gates that were registered after Abort (a goroutine that
+// had passed the aborted check before Abort ran).
+func (c *Ctl) AbortLate() {
+	c.drain()
+	for k, g := range c.parked {
+		raceOff()
+		close(g.ch)
+		raceOn()
+		delete(c.parked, k)
+	}
 }
